@@ -12,6 +12,7 @@
 //!   corrupt  {codec, level, payload: FILE, kind: "flip"|"trunc"|"flipany", idx, bit, n}   compress, damage, decompress
 //!   hostile  {codec, what, stream|stream_file | bomb: {codec, level, byte, n}}    decompress under the low limit
 //!   file     {codec, level, values: [[bytes]..]}                 Writer -> container file -> own splitter + Reader
+//!   ffile    {codec, what, file: FILE, values}                   a container file made elsewhere -> Reader
 //!
 //! Byte strings are arrays of byte values when the TLA+ trace spec has to look inside (`full`), and
 //! length + SHA-256 otherwise.  The compressed bytes of every rt/file event are also written to
@@ -369,6 +370,34 @@ fn run_file(scn: &J, ev: &mut J, blobs: &str, id: usize) {
     }
 }
 
+/// a container file made elsewhere (reference codecs + a few lines of Python): what does the Reader return?
+fn run_ffile(scn: &J, ev: &mut J) {
+    let file = read_file(scn["file"].as_str().unwrap_or(""));
+    ev["what"] = scn["what"].clone();
+    ev["values"] = scn["values"].clone();
+    ev["file_len"] = small(file.len());
+    let r = guarded(AssertUnwindSafe(|| -> Result<Vec<Vec<u8>>, String> {
+        let rd = Reader::new(&file[..]).map_err(|e| e.to_string())?;
+        let mut out = vec![];
+        for v in rd {
+            match v.map_err(|e| e.to_string())? {
+                Value::Bytes(b) => out.push(b),
+                other => return Err(format!("not bytes: {other:?}")),
+            }
+        }
+        Ok(out)
+    }));
+    let (ok, panic, err, vals) = match r {
+        Ok(Ok(vs)) => (true, false, String::new(), vs),
+        Ok(Err(e)) => (false, false, e, vec![]),
+        Err(p) => (false, true, p, vec![]),
+    };
+    ev["r_ok"] = J::from(ok);
+    ev["r_panic"] = J::from(panic);
+    ev["r_err"] = J::from(err.chars().take(160).collect::<String>());
+    ev["r_values"] = J::Array(vals.iter().map(|v| bytes_j(v)).collect());
+}
+
 fn main() {
     quiet_panics();
     let args = parse_args();
@@ -402,6 +431,7 @@ fn main() {
             "corrupt" => run_corrupt(&scn, &mut ev),
             "hostile" => run_hostile(&scn, &mut ev),
             "file" => run_file(&scn, &mut ev, &blobs, id),
+            "ffile" => run_ffile(&scn, &mut ev),
             other => {
                 eprintln!("unknown scenario kind {other:?} on line {idx}");
                 std::process::exit(2);
